@@ -126,6 +126,21 @@ def rule_b(model, rep, table):
         lset = {_anon(t) for t, _ in lpaths}
         rep.check(pset == lset, R, s + f" ~ passlib {pname}", f"passlib skeletons {sorted(pset)} vs libpass {sorted(lset)}", "both renderers produce the same literal skeletons (prefix, separators, field count, optional rounds field)",
                   witness=f"hashes made by one API are not parsed by the other ({pname})")
+    # the libpass regexes accept every character the passlib encoders of these fields can produce
+    AB64 = "ABCDEFGHIJKLMNOPQRSTUVWXYZabcdefghijklmnopqrstuvwxyz0123456789./"
+    H64 = "./0123456789ABCDEFGHIJKLMNOPQRSTUVWXYZabcdefghijklmnopqrstuvwxyz"
+    for pname, lcref, rattr in FORMATS:
+        lunit = model.unit(lcref[0])
+        if rattr:
+            pat, flags = c07._class_regex(model, lcref, lunit, rattr)
+        else:
+            pat, flags = fold_regex(model, lunit, lunit.assigns["BCRYPT_HASH_REGEX"][0])
+        alpha = AB64 if "pbkdf2" in pname else H64
+        for g in ("salt", "hash"):
+            rej = T.group_rejects(pat, flags, g, alpha)
+            rep.check(rej == "", R, site(lcref[0], lcref[1]) + f" {g} alphabet", f"`{g}` class rejects {rej!r}",
+                      f"the libpass record regex accepts every character passlib's encoder writes into `{g}` ({'adapted base64' if alpha is AB64 else 'hash64 / bcrypt64'})",
+                      witness=f"a passlib-made {pname} hash whose {g} contains {rej[:1]!r} is not identified / verified by the libpass hasher")
     # bcrypt-sha256: PHC definition vs passlib v2 template
     du = "libpass.inspect.phc.defs"
     cnode = model.cls(du, "BcryptSHA256PHCV2")
@@ -203,7 +218,7 @@ def rule_b(model, rep, table):
         v = model.class_const(("libpass.inspect.pbkdf2", cn), "DIGEST_NAME")
         ident = table.const(table.get(want.replace("-", "_")), "ident")
         rep.check(v == want and ident == f"${want}$", RD, site("libpass.inspect.pbkdf2", cn), f"{v!r} vs passlib ident {ident!r}", "libpass digest name is passlib's ident without the '$'")
-    rep.minimum(R, 16)
+    rep.minimum(R, 26)
     rep.minimum(RD, 15)
 
 
